@@ -217,8 +217,8 @@ pub fn stack_sub(tier: Tier) -> Sub {
   sub.rule = "case = one real-time execution per (peer behaviour x HEARTBEAT_IVL x HEARTBEAT_TIMEOUT) cell: a DEALER socket on loopback tcp against a scripted raw peer, observed for 3 x (IVL + TIMEOUT) + 2.5 s; oracle: silent peer -> first PING no sooner than IVL - 20 ms and no later than 2 x IVL + 1 s, connection closed no later than first PING + TIMEOUT + IVL + 1.5 s and not before first PING + TIMEOUT - 20 ms; peer answering PONGs / sending data -> never closed; peer PINGs -> one PONG each with the same context; ZMTP/2.0 peer and IVL=0 -> no heartbeat frames, no disconnect".into();
   let list = cells(tier);
   sub.bounds = json!({"cells": list.len()});
-  sub.notes.push("E4 cells are real-clock executions: the matrix is enumerated completely, the schedules inside a cell are not".into());
-  par::enumerate(&mut sub, list.len(), |i| {
+  sub.notes.push("a violation in a real-clock cell is reported only if it shows again when the cell is executed a second time; E4 cells are real-clock executions: the matrix is enumerated completely, the schedules inside a cell are not".into());
+  par::enumerate(&mut sub, list.len(), |i| par::confirmed(|| {
     let c = list[i];
     let rt = tokio::runtime::Builder::new_multi_thread().worker_threads(2).enable_all().build().expect("runtime");
     let r = rt.block_on(async move { tokio::time::timeout(Duration::from_secs(60), run_cell(c)).await });
@@ -303,6 +303,6 @@ pub fn stack_sub(tier: Tier) -> Sub {
       }
     }
     case
-  });
+  }));
   sub
 }
